@@ -17,6 +17,7 @@ var segAppend = ir.Callee{Pkg: "server/wal", Recv: "ReadWriteSegment", Name: "Ap
 func checkC08(c *chk.Ctx) {
 	h := newH(c)
 	c.Decided = []string{
+		"R08k the leader's commit continuation applies the committed entry on every path, so that effects follow offset order without gaps",
 		"R08a LEADER check, offset allocation and WAL append happen in one exclusive critical section of the controller lock",
 		"R08i a request popped from the commit queue is always completed successfully (the commit no longer depends on the caller)",
 		"R08j the already-committed test and the enqueue of a commit waiter are one critical section of the tracker mutex",
@@ -42,6 +43,7 @@ func checkC08(c *chk.Ctx) {
 	ruleR01cShared(h, "R08g")
 	ruleSyncCompletionsCovered(h, "R08h")
 	ruleCommittedContinuationsSucceed(h, "R08i")
+	ruleCommittedEntryAlwaysApplied(h, "R08k")
 	ruleCommitCheckUnderLock(h, "R08j")
 }
 
